@@ -537,6 +537,9 @@ func (s *St) Do(a Act) string {
 			e.Head.Links[a.N].URL = a.A
 		}
 		return "ok"
+	case "trawlink":
+		e.Head.Links = append(e.Head.Links, &head.Link{Key: cbc.Key(a.A), URL: a.B})
+		return "ok"
 	case "tdroplink":
 		if a.N < len(e.Head.Links) {
 			e.Head.Links = append(append([]*head.Link{}, e.Head.Links[:a.N]...), e.Head.Links[a.N+1:]...)
@@ -581,7 +584,7 @@ func (s *St) Token(a Act) string {
 		return a.K
 	case "edit", "tcode", "sign", "rt":
 		return fmt.Sprintf("%s %d", a.K, a.N)
-	case "stamp", "link", "meta", "trawstamp":
+	case "stamp", "link", "meta", "trawstamp", "trawlink":
 		return fmt.Sprintf("%s %s %s", a.K, core.Hex(a.A), core.Hex(a.B))
 	case "tdigval":
 		// a real digest value is named the way the model names it
